@@ -1,8 +1,8 @@
-import Iota.Driver.AllGen
+import Iota.Driver.All
 
 open Iota.Driver
 
-def table : List (String × Handler) := Iota.Driver.allOps
+def table : List (String × Handler) := Iota.Driver.modelOps
 
 def reply (line : String) : String :=
   match (line.trimAscii.toString.splitOn " ").filter (· ≠ "") with
